@@ -35,6 +35,15 @@ CLAIMED = {
  "C11": dict(cat="exploration", technique="import-set effect monitor over generated import blocks (input vs output (name,path) sets and remaining selector uses)",
    text="11 import-manipulating patches are applied to files whose import blocks contain the affected import in every form plus 0-8 unrelated imports in every block shape, with and without remaining uses; the monitor compares input and output import sets: unmentioned imports unchanged, nothing added, '+' imports present under the right name, '-' imports gone iff unreferenced or taken over, referenced matched imports kept.",
    note="Package name of an import = explicit name, else last path element (files are generated so that they coincide). Context-line imports that become unreferenced are don't-care.", ref="5/C11"),
+ "C06": dict(cat="exploration", technique="filesystem-digest + stdout/stderr/exit oracle + strace syscall monitor over runs with files that cannot match",
+   text="CLI runs over 3-8 files where some or all files cannot match (anchor identifier absent, failing package/import guard with the code pattern present, near-misses), in 8 non-canonical layouts plus standard-library files, in all output modes and flag combinations; monitors: per-file digest (bytes, inode, mtime, ctime, mode) before/after, no stdout/stderr/diff/description for the file, --print-only echoes the original bytes, exit 0, Apply(src)==src, and (every 8th run) a strace event log with no write-class syscall on an unmatched file.",
+   note="'Cannot match' is established syntactically without the reference model. -v log lines are allowed on stdout.", ref="5/C06"),
+ "C12": dict(cat="exploration", technique="strace syscall monitor + tree digest for dry runs; byte agreement of in-place / --print-only / applied --diff / library outputs",
+   text="The same (patch, files, flags) inputs are run in place, with --print-only and with --diff on separate scratch copies (dry runs under strace -f every 4th case) and through the library: the classified syscall log of a dry run must contain no mutating call anywhere, the tree digest must be unchanged, and the four outputs must agree byte for byte (diffs applied by a strict unified-diff applier); descriptions only on stderr and only for rewritten files.",
+   note="Three known findings in --diff mode (CRLF input, missing final newline, line > 64 KiB), root cause in github.com/pkg/diff: listed in known_findings.json by class signature.", ref="5/C12"),
+ "C15": dict(cat="exploration", technique="three independent observations (rewrite count in file bytes, -v log order, strace open/write event log) vs a transcription of the statement",
+   text="Random directory trees with excluded directory names at any depth, look-alike names, symlinks, non-Go files, and argument lists with overlaps/duplicates/absolute/'...' forms; every .go file carries one site of a non-idempotent patch so the number of times it was processed is readable from its bytes; the -v log gives the processed set and order; every 5th run a strace log gives exactly-once read/modify per model file and sorted order.",
+   note="cwd never has an excluded name; symlinks named explicitly are not processed (the statement: 'no symlinks').", ref="5/C15"),
 #NEXT
 }
 
